@@ -172,7 +172,7 @@ public:
     Dump d; ThrowPlan tp; const Locator* loc; bool wantLoc;
     const Case* cs; ChunkSpec chunk; bool chunkEnts; std::string resMiss; MemoryManager* mm;
     unsigned long nW, nE, nF; long callbacks;
-    Rec() : loc(0), wantLoc(true), cs(0), chunkEnts(false), mm(XMLPlatformUtils::fgMemoryManager), nW(0), nE(0), nF(0), callbacks(0) {}
+    Rec() : loc(0), wantLoc(true), cs(0), chunkEnts(false), mm(XMLPlatformUtils::fgMemoryManager), nW(0), nE(0), nF(0), callbacks(0), joining(false) {}
     void cb() {
         callbacks++;
         if (tp.at && callbacks == tp.at) {
@@ -254,6 +254,35 @@ public:
     void externalEntityDecl(const XMLCh* const n, const XMLCh* const p, const XMLCh* const s) { cb(); d.ev("XED\t" + esc(n) + "\t" + esc(p) + "\t" + esc(s)); }
 
     // --- resolvers
+    // monitor-side reference resolution (RFC 2396 5.2 for the hierarchical cases used by the workloads): the library's own
+    // URL code is under test, so the driver must not use it to decide which resource a reference designates
+    static std::string joinUri(const std::string& base, const std::string& rel) {
+        if (rel.empty()) return base;
+        if (rel[0] == '/' || rel.find("://") != std::string::npos || rel.compare(0, 5, "file:") == 0 || rel.compare(0, 3, "xv:") == 0) return rel;
+        size_t cut = base.rfind('/');
+        std::string path = (cut == std::string::npos ? std::string() : base.substr(0, cut + 1)) + rel;
+        // split off the scheme://authority prefix
+        std::string pre; size_t s3 = path.find("://");
+        if (s3 != std::string::npos) { size_t sl = path.find('/', s3 + 3); if (sl == std::string::npos) return path; pre = path.substr(0, sl); path = path.substr(sl); }
+        std::vector<std::string> seg; size_t a = 0; bool lead = !path.empty() && path[0] == '/';
+        while (a <= path.size()) { size_t b = path.find('/', a); std::string t = path.substr(a, b == std::string::npos ? std::string::npos : b - a);
+            if (t == "..") { if (!seg.empty() && seg.back() != "..") seg.pop_back(); else if (!lead) seg.push_back(t); }
+            else if (t != "." && !(t.empty() && b != std::string::npos && a != 0)) { if (!(t.empty() && a == 0)) seg.push_back(t); }
+            if (b == std::string::npos) break; a = b + 1; }
+        std::string out = pre + (lead ? "/" : "");
+        for (size_t i = 0; i < seg.size(); i++) { if (i) out += "/"; out += seg[i]; }
+        return out;
+    }
+    InputSource* serveJoined(const XMLCh* sys, const XMLCh* base) {
+        if (!cs) return 0;
+        joining = true;
+        InputSource* s = serve(sys);
+        joining = false;
+        if (s || !sys) return s;
+        xstr j = u16(joinUri(u8(base), u8(sys)));
+        d.side("JOIN\t" + escx(j));
+        return serve(j.c_str());
+    }
     InputSource* serve(const XMLCh* sys) {
         if (!cs) return 0;
         std::string k = u8(sys);
@@ -263,20 +292,23 @@ public:
             MemBufInputSource* s = new (mm) MemBufInputSource((const XMLByte*)cs->ents[i].second.data(), cs->ents[i].second.size(), sys, false, mm);
             return s;
         }
-        if (resMiss == "empty") { static const XMLByte z[1] = { 0 }; return new (mm) MemBufInputSource(z, 0, sys, false, mm); }
+        if (resMiss == "empty" && !joining) { static const XMLByte z[1] = { 0 }; return new (mm) MemBufInputSource(z, 0, sys, false, mm); }
         return 0;
     }
+    bool joining;
     InputSource* resolveEntity(const XMLCh* const pub, const XMLCh* const sys) {
         d.side("RES\tsax\t" + esc(pub) + "\t" + esc(sys) + "\t~\t~");
         cb();
-        return serve(sys);
+        // the SAX interface carries no base URI; schema locations arrive unexpanded: fall back to the document's own id
+        xstr docBase = u16(cs ? cs->get("sysid", "file:///xv/doc.xml") : std::string("file:///xv/doc.xml"));
+        return serveJoined(sys, docBase.c_str());
     }
     InputSource* resolveEntity(XMLResourceIdentifier* ri) {
         d.side("RES\tx" + itos(ri->getResourceIdentifierType()) + "\t" + esc(ri->getPublicId()) + "\t" + esc(ri->getSystemId()) + "\t" + esc(ri->getBaseURI()) + "\t" + esc(ri->getNameSpace()) + "\t" + esc(ri->getSchemaLocation()));
         cb();
         const XMLCh* sys = ri->getSystemId();
         if (ri->getResourceIdentifierType() != XMLResourceIdentifier::ExternalEntity && ri->getSchemaLocation()) sys = ri->getSchemaLocation();
-        return serve(sys);
+        return serveJoined(sys, ri->getBaseURI());
     }
     DOMLSInput* resolveResource(const XMLCh* const type, const XMLCh* const ns, const XMLCh* const pub, const XMLCh* const sys, const XMLCh* const base) {
         d.side("RES\tls\t" + esc(pub) + "\t" + esc(sys) + "\t" + esc(base) + "\t" + esc(ns) + "\t" + esc(type));
@@ -416,7 +448,10 @@ static void configure(Session& S, const std::map<std::string, std::string>& o) {
         if (switchScanner) c->setParameter(XMLUni::fgXercesScannerName, (const void*)sc);
         c->setParameter(XMLUni::fgDOMNamespaces, ns); c->setParameter(XMLUni::fgXercesSchema, schema); c->setParameter(XMLUni::fgXercesSchemaFullChecking, full);
         c->setParameter(XMLUni::fgXercesLoadExternalDTD, extdtd);
-        c->setParameter(XMLUni::fgDOMValidate, val == "always"); c->setParameter(XMLUni::fgDOMValidateIfSchema, val == "auto");
+        // the two parameters share one validation scheme underneath: reset it, then select (order matters)
+        c->setParameter(XMLUni::fgDOMValidate, false);
+        if (val == "always") c->setParameter(XMLUni::fgDOMValidate, true);
+        else if (val == "auto") c->setParameter(XMLUni::fgDOMValidateIfSchema, true);
         c->setParameter(XMLUni::fgXercesContinueAfterFatalError, cont); c->setParameter(XMLUni::fgXercesDisableDefaultEntityResolution, disdef);
         c->setParameter(XMLUni::fgXercesLoadSchema, loadschema); c->setParameter(XMLUni::fgXercesIdentityConstraintChecking, ic);
         c->setParameter(XMLUni::fgXercesCacheGrammarFromParse, cache); c->setParameter(XMLUni::fgXercesUseCachedGrammarInParse, usecached);
@@ -512,7 +547,11 @@ static void runStep(Session& S, const Case& c, const Step& st, size_t idx) {
         else if (op == "lockpool") { if (S.pool) S.pool->lockPool(); }
         else if (op == "unlockpool") { if (S.pool) S.pool->unlockPool(); }
         else {
-            if (src == "file") {
+            if (src == "path") {
+                // a file that already exists on disk (resource-access workloads); the payload is ignored
+                xstr xp = u16(opts(o, "srcpath", ""));
+                is = new (S.mm) LocalFileInputSource(xp.c_str(), S.mm);
+            } else if (src == "file") {
                 std::string path = scratchDir() + "/doc" + itos((long long)idx) + ".xml";
                 FILE* f = fopen(path.c_str(), "wb"); if (f) { fwrite(st.payload.data(), 1, st.payload.size(), f); fclose(f); }
                 xstr xp = u16(path);
